@@ -153,19 +153,44 @@ Definition spec_run (c : ctx) (a d : bool) (calls : list pcall) (r : rres) : boo
       end
   end.
 
+(* model arm of one run, for coverage: ok (nothing renamed) | dedup (a call renamed to a name
+   the user spelled) | auto (a fresh name invented; +deep when the search went past `prefix_`,
+   i.e. skipped occupied or reserved candidates) | dup | conf *)
 Definition outcome_code (c : ctx) (a d : bool) (calls : list pcall) : string :=
   match run_pkg c a d calls with
-  | POk _ ms => if forallb (fun '((_, (n, _)), m) => String.eqb n m) (combine calls ms) then "ok" else "ren"
+  | POk _ ms =>
+      let pairs := combine calls ms in
+      let renamed := filter (fun '((_, (n, _)), m) => negb (String.eqb n m)) pairs in
+      let user := map (fun '(_, (n, _)) => n) calls in
+      let fresh := filter (fun '(_, m) => negb (name_mem m user)) renamed in
+      let deep := existsb (fun '((p, _), m) =>
+                    Nat.ltb (S (String.length (nth p (c_prefixes c) ""))) (String.length m)) fresh in
+      match renamed with
+      | [] => "ok"
+      | _ => (match fresh with [] => "dedup" | _ =>
+                if Nat.eqb (List.length fresh) (List.length renamed) then "auto" else "auto+dedup" end)
+             ++ (if deep then "+deep" else "")
+      end
   | PErr _ (SDup _ _) => "dup"
   | PErr _ (SConflict _) => "conf"
   | PErr _ _ => "fuel"
   end.
+
+Definition len_code (n : nat) : string :=
+  match n with 0 => "0" | 1 => "1" | 2 => "2" | 3 => "3" | 4 => "4" | 5 => "5" | _ => "6+" end.
 
 Definition guard_calls (c : ctx) (calls : list pcall) : bool :=
   teq_is_identity c &&
   forallb (fun '(p, (n, t)) => negb (name_mem n (c_reserved c)) &&
                                Nat.ltb p (List.length (c_prefixes c)) &&
                                Nat.ltb t (List.length (c_hints c))) calls.
+
+(* an error whose message the harness could not classify matches any model error at that call *)
+Definition unknown_match (m real : sexp) : bool :=
+  match real, m with
+  | L [Sym "err"; Num i; Sym "unknown"], L (Sym "err" :: Num j :: _) => Z.eqb i j
+  | _, _ => false
+  end.
 
 (* one run: (a d REAL) *)
 Definition eval_run (e2e : bool) (c : ctx) (calls : list pcall) (e : sexp)
@@ -175,7 +200,7 @@ Definition eval_run (e2e : bool) (c : ctx) (calls : list pcall) (e : sexp)
       match get_bool fa, get_bool fd, parse_real real with
       | Some a, Some d, Some r =>
           let m := pres_sexp e2e c (run_pkg c a d calls) in
-          Some (sexp_eqb m real, spec_run c a d calls r, L [fa; fd; m], outcome_code c a d calls)
+          Some (sexp_eqb m real || unknown_match m real, spec_run c a d calls r, L [fa; fd; m], outcome_code c a d calls)
       | _, _, _ => None
       end
   | _ => None
@@ -198,7 +223,7 @@ Definition eval_pkg (e : sexp) : verdict :=
                  v_spec_ok := forallb (fun '(_, s, _, _) => s) rs;
                  v_guard := guard_calls c calls;
                  v_model := L (map (fun '(_, _, m, _) => m) rs);
-                 v_tag := (k ++ "/" ++ join_tags (map (fun '(_, _, _, t) => t) rs)) |}
+                 v_tag := (k ++ "/k=" ++ len_code (List.length calls) ++ "/" ++ join_tags (map (fun '(_, _, _, t) => t) rs)) |}
           | None => bad_line
           end
       | _, _ => bad_line
